@@ -177,7 +177,7 @@ func init() {
 		Level: "model_checking",
 		Rule: "bounded-exhaustive scenarios: full product of a core grid (1-3 files x 6 sizes x slice{4,8} x blocks{1,2,3,5} x goroutines{1,3}) x every single damage of a reduced menu; " +
 			"around a default set (sizes 11,6; slice 4; 3 blocks) ALL combinations of <=D operators (quick D=2, thorough D=3) from the full menu (delete, overwrite each slice, bit flips at every byte, " +
-			"insert 1/s-1/s/s+1 bytes at every offset, truncate/cut at every offset, append, swap, copy, delete each recovery file) for 5 content classes; structured large sets. " +
+			"insert 1/s-1/s/s+1 bytes at every offset, truncate/cut at every offset, append, swap, copy, delete each recovery file) for 5 content classes; structured large sets; a set above 16 KiB verified / repaired right after ANOTHER GENERATION of itself (same names, lengths, first 16 KiB => same file ids and set id, other content) in the same process, with exactly as many slices lost as blocks exist. " +
 			"Each scenario runs the real Create, Verify and Repair; oracle = brute-force slice scan + reference Vandermonde singularity test. non-trivial = damaged scenario in which Repair wrote >=1 file",
 		Assumptions: []string{
 			"in-memory filesystem implements the fileIO contract faithfully (fresh copies on read, ENOENT for missing, literal prefix/suffix listing)",
@@ -187,6 +187,7 @@ func init() {
 		NewCase: func() interface{} { return &p2Case{} },
 		Gen: func(g *core.Gen) {
 			c01Gen(g, nil)
+			genGenerationCases(func(c *p2Case) { g.Emit(c) }, false)
 		},
 		Run: func(ci interface{}, r *core.Rec) {
 			runP2(ci.(*p2Case), r, p2Clauses{RepairWithinCapacity: true})
